@@ -206,12 +206,12 @@ RX_DEF_NUM = re.compile(r'^(\s*)-\s+(Numbers\w+)\s*:')
 RX_DEF_SET = re.compile(r'^(\s*)-\s+(\w+)\s*:\s*\{')
 RX_PREF = re.compile(r'^(\s+)(Language|SpeechStyle|Verbosity|BrailleCode|DecimalSeparator)(:\s*)([^#\n]*?)(\s*(?:#.*)?)$', re.S)
 
-FAULT_KINDS = ["deleted", "empty", "trunc-boundary", "trunc-mid", "type-swapped", "type-scalar", "bad-xpath", "unknown-key",
+FAULT_KINDS = ["deleted", "empty", "trunc-boundary", "trunc-mid", "type-swapped", "type-scalar", "bad-xpath", "bad-xpath-text", "unknown-key",
                "extra-key", "appended-item", "item-scalar", "def-scalar-numbers", "def-scalar-set", "pref-int", "pref-list"]
 # a character no shipped Unicode file defines (checked at discovery); the 'appended-item' fault defines it, the repair must undefine it again
 SENTINELS = ["\u2BD1", "\u2BD2", "\U0001F701", "\u2E3B"]
 # faults that no consumer of the file can read as what it is supposed to be: the library has to report them
-MUST_ERROR = {"empty", "trunc-mid", "type-swapped", "type-scalar", "bad-xpath", "unknown-key", "item-scalar",
+MUST_ERROR = {"empty", "trunc-mid", "type-swapped", "type-scalar", "bad-xpath", "bad-xpath-text", "unknown-key", "item-scalar",
               "def-scalar-numbers", "def-scalar-set"}
 
 
@@ -248,7 +248,7 @@ def make_fault(text, kind, param, role, sentinel=None):
         return "---\n- zzitem\n- 3\n" if style == "map" else "---\nzzkey: zzvalue\nzzother: 3\n"
     if kind == "type-scalar":
         return "---\nzzscalar\n"
-    if kind == "bad-xpath":
+    if kind in ("bad-xpath", "bad-xpath-text"):
         if is_defs or is_prefs:
             return None
         c = _line_candidates(text, RX_MATCH)
@@ -256,7 +256,10 @@ def make_fault(text, kind, param, role, sentinel=None):
             return None
         pos, m = _pick(c, param)
         ln = m.group(0)
-        return text[:pos] + m.group(1) + '"*[["' + m.group(3) + text[pos + len(ln):]
+        # the second form is what an edit of a rule for a symbol leaves behind: a stray parenthesis right after a comparison with a
+        # non-ASCII character (the error message quotes the expression around the place where parsing stopped)
+        broken = '"*[["' if kind == "bad-xpath" else ["\".='\u221e')\"", "\"$Verbosity='Terse' or .='\u2032')\"", "\"*[1][.='\u03b1\u03b2']]\""][int(param * 1000) % 3]
+        return text[:pos] + m.group(1) + broken + m.group(3) + text[pos + len(ln):]
     if kind == "unknown-key":
         if is_defs or is_prefs:
             return None
